@@ -54,11 +54,24 @@ def write_config(d, kind, settings):
             if ks:
                 lines.append("[%s]" % sec)
                 lines += ["%s = %s" % (k.replace("_", "-") if kebab else k, toml_value(settings[k])) for k in ks]
+    elif kind == "pyproject-subtables-kebab":
+        # the flowmark table exists only through its sub-tables
+        lines.append("[tool.other]\nx = 1")
+        for sec in ("formatting", "file-discovery"):
+            ks = [k for k in settings if SECTION[k] == sec]
+            if ks:
+                lines.append("[tool.flowmark.%s]" % sec)
+                lines += ["%s = %s" % (k.replace("_", "-"), toml_value(settings[k])) for k in ks]
+    elif kind == "pyproject-inline-kebab":
+        # ... or as an inline table / dotted keys under [tool]
+        lines.append("[tool]")
+        lines.append("flowmark = { %s }" % ", ".join("%s = %s" % (k.replace("_", "-"), toml_value(v)) for k, v in settings.items()))
     else:
         if kind.startswith("pyproject"):
             lines.append("[tool.flowmark]")
         lines += ["%s = %s" % (k.replace("_", "-") if kebab else k, toml_value(v)) for k, v in settings.items()]
     name = {"flat-snake": ".flowmark.toml", "sectioned-kebab": "flowmark.toml", "pyproject-kebab": "pyproject.toml",
+            "pyproject-subtables-kebab": "pyproject.toml", "pyproject-inline-kebab": "pyproject.toml",
             "parent-flat": ".flowmark.toml"}[kind]
     open(os.path.join(d, name), "w").write("\n".join(lines) + "\n")
 
@@ -159,7 +172,7 @@ def expected(setting, flag, conf, auto, flag_default=False):
 
 
 def cases(tier):
-    kinds = ["flat-snake", "sectioned-kebab", "pyproject-kebab", "parent-flat"]
+    kinds = ["flat-snake", "sectioned-kebab", "pyproject-kebab", "parent-flat", "pyproject-subtables-kebab", "pyproject-inline-kebab"]
     out = []
     i = 0
     for setting, (argv, fval, cval, default, argv_def) in S.items():
@@ -292,6 +305,18 @@ def bounded(tier, seed):
             evals += 1
             if eff.get("width") != want:
                 violations.append({"clause": "search_order", "input": {"present_first": want}, "got": eff.get("width"), "want": want})
+        # every spelling argparse accepts for a flag counts as "the flag was passed": clusters of short options (also behind
+        # an untracked first letter), attached values, --opt=value, unambiguous prefixes
+        open(os.path.join(d, "p", "pyproject.toml"), "w").write("[tool.flowmark]\nwidth = 30\nsemantic = false\ncleanups = false\n")
+        for argv, want in ((["-is"], {"semantic": True, "width": 30}), (["-iw50"], {"width": 50, "semantic": False}),
+                           (["-psw", "50"], {"width": 50, "semantic": True}), (["-ic"], {"cleanups": True}), (["-sw50"], {"width": 50, "semantic": True}),
+                           (["-cs"], {"cleanups": True, "semantic": True}), (["--width=51"], {"width": 51}), (["-w51"], {"width": 51}),
+                           (["--wid", "52"], {"width": 52}), (["-o", "out.md", "-s"], {"semantic": True}), (["-ooutfile.md", "-s"], {"semantic": True})):
+            rc, eff, err = observe(argv + ["doc.md"], os.path.join(d, "p"))
+            evals += 1
+            bad = {k: eff.get(k) for k, v in want.items() if eff.get(k) != v}
+            if bad:
+                violations.append({"clause": "precedence", "input": {"argv": argv, "config": {"width": 30, "semantic": False, "cleanups": False}}, "got": bad, "want": want})
         open(os.path.join(d, "p", "pyproject.toml"), "w").write("[tool.flowmark]\nwidht = 43\n")
         rc, eff, err = observe(["."], os.path.join(d, "p"))
         evals += 1
@@ -299,11 +324,11 @@ def bounded(tier, seed):
             violations.append({"clause": "unknown_key_warns", "input": {}, "got": err[:200]})
     finally:
         shutil.rmtree(d, ignore_errors=True)
-    evals += effect_same_as_flag(violations, ["flat-snake", "sectioned-kebab", "pyproject-kebab"])
+    evals += effect_same_as_flag(violations, ["flat-snake", "sectioned-kebab", "pyproject-kebab", "pyproject-subtables-kebab", "pyproject-inline-kebab"])
     from . import funcspecs as FS
     evals += FS.parse_config_sweep(violations)
     return {"evaluations": evals, "distinct_nontrivial": len(distinct), "violations": violations, "samples": samples,
-            "rule": "(also: _parse_config_data sets exactly the named field to exactly the given value for all 13 keys x {kebab, snake} x {top level, [formatting], [file-discovery], other section}, all pairs together, unknown keys warned about and ignored) (also: nearest config file wins for all 9 kind pairs, adjacent or one level apart; --list-files honours the discovery keys of the config) (also, end to end on the output bytes of an option-sensitive document: each formatting key set in a config file "
+            "rule": "(also: flags given in clusters of short options, with attached values, as --opt=value or as unambiguous prefixes win over the config file) (also: _parse_config_data sets exactly the named field to exactly the given value for all 13 keys x {kebab, snake} x {top level, [formatting], [file-discovery], other section}, all pairs together, unknown keys warned about and ignored) (also: nearest config file wins for all 9 kind pairs, adjacent or one level apart; --list-files honours the discovery keys of the config) (also, end to end on the output bytes of an option-sensitive document: each formatting key set in a config file "
                     "gives the same output as the equivalent flag, and a different one from no setting) 13 settings x {flag given, not} x {config sets, not} x {--auto, not} (+ flag passed with its default value) "
                     "x config kind {.flowmark.toml flat snake, flowmark.toml sectioned kebab, pyproject [tool.flowmark], parent "
                     "directory with a section-less pyproject nearer}; quick rotates the kind, thorough takes all; observed at the "
